@@ -448,6 +448,27 @@ def stage_falsy_and_order_sweep(ctx: Ctx):
                         attempt(src, path, lambda g, fld=fld, code=code: (lambda: g.put(code, fld)), {'how': 'falsy-put', 'field': fld, 'code': repr(code)})
                         if isinstance(v, ast.AST) and getattr(v, 'f', None) is not None:
                             attempt(src, path, lambda g, fld=fld, code=code: (lambda: getattr(g, fld).replace(code)), {'how': 'falsy-replace', 'field': fld, 'code': repr(code)})
+    # (d) ONE element of every list field replaced by code that a rule of that container may reject (a star alias next to other names, a wildcard, starred / double-starred
+    #     things, dotted and renamed names, slices ...) through every one-element entry point: a rule that is checked after the element went in leaves a half-applied change
+    RULE_PROGS = ['from mod import alpha, beta\n', 'from mod import (alpha as a, beta, gamma)\n', 'import a, b.c\n', 'with a as b, c: pass\n',
+                  'match x:\n case {1: a, **r}: pass\n case C(a, b=c): pass\n case [a, *b]: pass\n case a | b: pass\n', 'def f(a, *b, c, **d): pass\n', 'def g():\n    global a, b\n',
+                  'del a, b\n', 'x = {a: b, **c}\n', 'f(a, *b, k=c, **d)\n', 'try: pass\nexcept A: pass\nexcept B: pass\n', 'type T[A, *B, **C] = int\n', 'x = a < b < c\n', 'class K(A, m=B): pass\n',
+                  'for a, b in c: pass\n', 'a = b = c\n', 'x = [a, *b]\ny = a[b:c, d]\n', '@a\n@b\ndef f(): pass\n', 'x = [i for i in j if k if l]\n', 'try: pass\nexcept* A: pass\nexcept* B: pass\n']
+    RULE_CODES = ['*', '_', '**k', '*s', 'a.b', 'x as y', 'lambda: 0', 'a:b', '...', 'k=v', 'except: pass', 'except* E: pass', '1', '(yield)', 'a := b', '*', 'for q in r', 'if z', '@d', 'T: int', '**P']
+    for src in RULE_PROGS:
+        probe = fst.FST(src, 'exec')
+        for f in probe.walk(True):
+            path = probe.child_path(f)
+            for fld in f.a._fields:
+                v = getattr(f.a, fld, None)
+                if not isinstance(v, list) or not v or fld in ('body', 'orelse', 'finalbody', 'type_ignores'):
+                    continue
+                for i in range(len(v)):
+                    for code in RULE_CODES:
+                        attempt(src, path, lambda g, fld=fld, i=i, code=code: (lambda: g.put(code, i, fld)), {'how': 'rule-put', 'field': fld, 'idx': i, 'code': code})
+                        attempt(src, path, lambda g, fld=fld, i=i, code=code: (lambda: getattr(g, fld).__setitem__(i, code)), {'how': 'rule-setitem', 'field': fld, 'idx': i, 'code': code})
+                        if isinstance(v[i], ast.AST):
+                            attempt(src, path, lambda g, fld=fld, i=i, code=code: (lambda: getattr(g, fld)[i].replace(code)), {'how': 'rule-replace', 'field': fld, 'idx': i, 'code': code})
     # (c) the ROOT as target: consumed / non-root / unparsable / wrong-kind code
     for src, mode in (('x = 1\n', 'exec'), ('a + b', 'expr'), ('x = 1', 'stmt'), ('[p, q]', 'pattern')):
         for what in ('consumed', 'nonroot', 'unparsable', 'none', 'to'):
